@@ -28,7 +28,8 @@ ASSUMPTIONS = ["identity of manager-originated frames = all header fields but ms
                "occur twice on one connection are excluded from the order graph (they cannot be told apart)",
                "a connection the manager itself dropped may end mid-frame",
                "harness clients are drained continuously"]
-REQUIRE = {"frames_parsed": 5000, "order_pairs_compared": 500, "msg_count_checked": 5000}
+REQUIRE = {"frames_parsed": 5000, "order_pairs_compared": 500, "msg_count_checked": 5000,
+           "pressure_big_frames_to_slow_receivers": 40}
 CASE_TIMEOUT = 120
 
 
@@ -129,12 +130,21 @@ def gen_cases(tier, seed):
     for i in range(n_free):
         cases.append({"kind": "free", "seed": rng.getrandbits(32), "tc": i % 3 == 2, "npub": rng.randint(2, 8),
                       "nsub": rng.randint(2, 4), "nmsg": rng.choice([200, 500, 1200]), "timeout": 60})
+    # back-pressure: receivers with a small receive buffer that read slowly while frames far larger than the
+    # free send-buffer space are forwarded to them (the manager has to wait for room inside one frame)
+    for i in range(12 if tier == "quick" else 300):
+        cases.append({"kind": "pressure", "seed": rng.getrandbits(32), "tc": i % 3 == 2, "npub": rng.randint(1, 3),
+                      "nbig": rng.randint(6, 20), "rcvbuf": rng.choice([4096, 16384, 65536]),
+                      "chunk": rng.choice([1000, 8192, 65536]), "nap": rng.choice([0.0005, 0.002, 0.005]),
+                      "hold": rng.choice([0.05, 0.2, 0.5]), "slow_logger": int(rng.random() < 0.25)})
     return cases
 
 
 def run_case(case, tier):
     if case["kind"] == "free":
         return run_free(case)
+    if case["kind"] == "pressure":
+        return run_pressure(case)
     rig = ManagerRig(stepped=True, timecode=bool(case.get("tc")), loud=bool(case.get("loud")))
     try:
         sc = Scenario(rig, case.get("seed", 0))
@@ -347,6 +357,169 @@ def run_free(case):
         res["sets"]["free_orders"] = [hash(tuple(rig.orders_seen[:200])) & 0xFFFFFF]
         return res
     finally:
+        rig.close()
+
+
+class SlowClient:
+    """raw client with a small receive buffer whose reader holds off, then reads in small chunks with naps"""
+
+    def __init__(self, addr, label, timecode, rcvbuf, hold, chunk, nap):
+        import socket
+        self.label, self.timecode = label, timecode
+        self.sock = socket.socket(socket.AF_INET, socket.SOCK_STREAM)
+        self.sock.setsockopt(socket.SOL_SOCKET, socket.SO_RCVBUF, rcvbuf)
+        self.sock.setsockopt(socket.IPPROTO_TCP, socket.TCP_NODELAY, 1)
+        self.sock.connect(addr)
+        self.buf = bytearray()
+        self.eof = None
+        self.sent = 0
+        self.hold, self.chunk, self.nap = hold, chunk, nap
+        self.fast = False
+        self.last_rx = time.time()
+        self.stop = False
+        self.lock = threading.Lock()
+        self.th = threading.Thread(target=self._run, daemon=True)
+
+    def send_frame(self, msg_type, payload=b"", **kw):
+        kw.setdefault("msg_count", self.sent)
+        self.sock.sendall(W.frame_bytes(msg_type, payload, timecode=self.timecode, **kw))
+        self.sent += 1
+
+    def read_now(self, n, timeout=5.0):
+        """blocking read of at least n bytes (used for the handshake before the slow reader starts)"""
+        self.sock.settimeout(timeout)
+        try:
+            while len(self.buf) < n:
+                d = self.sock.recv(n - len(self.buf))
+                if not d:
+                    break
+                self.buf += d
+        except OSError:
+            pass
+
+    def _run(self):
+        self.sock.settimeout(0.05)
+        time.sleep(self.hold)
+        while not self.stop:
+            try:
+                d = self.sock.recv(1 << 20 if self.fast else self.chunk)
+            except TimeoutError:
+                continue
+            except OSError as e:
+                self.eof = "rst"
+                return
+            if not d:
+                self.eof = "fin"
+                return
+            with self.lock:
+                self.buf += d
+                self.last_rx = time.time()
+            if not self.fast:
+                time.sleep(self.nap)
+
+    def frames(self):
+        with self.lock:
+            data = bytes(self.buf)
+        return W.parse_frames(data, self.timecode)
+
+    def close(self):
+        self.stop = True
+        self.th.join(1)
+        try:
+            self.sock.close()
+        except OSError:
+            pass
+
+
+def run_pressure(case):
+    from vf.rig.scenario import pub_payload
+    rng = random.Random(case["seed"])
+    rig = ManagerRig(stepped=False, timecode=bool(case.get("tc")), virtual_clock=False)
+    slow = []
+    try:
+        hsz = 56 if rig.timecode else 48
+        for i in range(2):
+            sc = SlowClient(rig.addr, f"w{i}", rig.timecode, case["rcvbuf"], case["hold"] * (i + 1), case["chunk"], case["nap"])
+            lg = int(i == 0 and case["slow_logger"])
+            sc.send_frame(W.MT_CONNECT_V2, W.p_connect_v2(lg, 0, 0, 20 + i, 1, b""), src_mod=20 + i)
+            sc.send_frame(W.MT_CONNECT, W.p_connect(lg, 0), src_mod=20 + i)
+            sc.read_now(hsz)
+            for t in ((ALL,) if i == 0 else (1234, 1235)):
+                sc.send_frame(W.MT_SUBSCRIBE, W.p_sub(t), src_mod=20 + i)
+            sc.read_now(hsz * (2 if i == 0 else 3))
+            slow.append(sc)
+        fast = rig.client("f0")
+        fast.send_frame(W.MT_CONNECT_V2, W.p_connect_v2(0, 0, 0, 30, 1, b""), src_mod=30)
+        fast.send_frame(W.MT_CONNECT, W.p_connect(0, 0), src_mod=30)
+        fast.send_frame(W.MT_SUBSCRIBE, W.p_sub(ALL), src_mod=30)
+        pubs = []
+        for i in range(case["npub"]):
+            p = rig.client(f"p{i}")
+            p.send_frame(W.MT_CONNECT_V2, W.p_connect_v2(0, 0, 0, 40 + i, 1, b""), src_mod=40 + i)
+            p.send_frame(W.MT_CONNECT, W.p_connect(0, 0), src_mod=40 + i)
+            pubs.append(p)
+        time.sleep(0.05)
+        for sc in slow:
+            sc.th.start()
+        registry = {}
+        lock = threading.Lock()
+
+        def worker(idx, wc):
+            r = random.Random(case["seed"] * 977 + idx)
+            for n in range(case["nbig"]):
+                pid = PUB_BASE + idx * 1_000_000 + n + 1
+                size = r.choice([1 << 20, 1 << 20, 300_000, 70_000, 100, 0])
+                data = W.frame_bytes(r.choice([1234, 1235]), pub_payload(pid, size), timecode=rig.timecode,
+                                     msg_count=n, send_time=float(pid), src_mod=40 + idx, reserved=pid & 0xFFFFFFFF)
+                with lock:
+                    registry[pid] = {"id": pid, "by": f"p{idx}", "key": W.parse_frames(data, rig.timecode)[0][0].key()}
+                try:
+                    wc.send_raw(data)
+                except OSError:
+                    return
+                if n == case["nbig"] // 2 and idx == 0:
+                    # control traffic from a slow receiver while large frames are in flight to it
+                    try:
+                        slow[1].send_frame(W.MT_SUBSCRIBE, W.p_sub(1236), src_mod=21)
+                    except OSError:
+                        pass
+
+        ths = [threading.Thread(target=worker, args=(i, p), daemon=True) for i, p in enumerate(pubs)]
+        for t in ths:
+            t.start()
+        for t in ths:
+            t.join(60)
+        for sc in slow:
+            sc.fast = True
+        end = time.time() + 30
+        while time.time() < end:
+            time.sleep(0.2)
+            if (all(inq_empty(s) for s in rig._modules_sockets()) and rig.outq_empty(0.5)
+                    and all(time.time() - sc.last_rx > 0.4 for sc in slow)):
+                break
+        rig.wait_rounds(2, 2.0)
+        rig.settle(5.0)
+        time.sleep(0.3)
+        if not rig.alive():
+            return {"violations": [{"mech": "manager_died", "detail": (rig.crash or "ended")[-800:]}], "counters": {}}
+        streams = {}
+        allc = slow + [fast] + pubs
+        for wc in allc:
+            try:
+                fr, left = wc.frames()
+                streams[wc.label] = {"frames": fr, "leftover": left, "eof": wc.eof, "parse_error": None}
+            except W.ParseError as e:
+                streams[wc.label] = {"frames": [], "leftover": b"", "eof": wc.eof, "parse_error": str(e)}
+        res = judge_streams(streams, {wc.label: (None, wc.eof) for wc in allc},
+                            lambda f: registry.get(f.pid), loggers={"w0"} if case["slow_logger"] else ())
+        res["sig"] = sig_of(case)
+        res["counters"]["pressure_cases"] = 1
+        res["counters"]["pressure_big_frames_to_slow_receivers"] = sum(
+            1 for sc in slow for f in streams[sc.label]["frames"] if f.nbytes >= 70_000)
+        return res
+    finally:
+        for sc in slow:
+            sc.close()
         rig.close()
 
 
